@@ -196,6 +196,22 @@ func ruleKillArg(c *Ctx) {
 				}
 			}
 			if yield {
+				// only the coroutine's base loop (baseframe == nil, entered by threadRun) may suspend: a loop
+				// entered through callR sits above Go frames of a host function or a metamethod dispatch
+				// that cannot be suspended, and returning from it as if the call had finished corrupts both threads
+				baseOnly := false
+				for _, cd := range g.CondsAtInstr(cl) {
+					if b, ok := cd.V.(*ssa.BinOp); ok {
+						pm, isP := b.X.(*ssa.Parameter)
+						k, isC := b.Y.(*ssa.Const)
+						if isP && isC && k.IsNil() && pm.Name() == "baseframe" {
+							if (b.Op == token.NEQ && !cd.Sense) || (b.Op == token.EQL && cd.Sense) {
+								baseOnly = true
+							}
+						}
+					}
+				}
+				c.check(baseOnly, R, key+":yield-only-from-base-loop", p.ipos(cl), "a yield switches threads only in the loop threadRun entered (baseframe == nil)", "the yield site switches to the parent thread whatever loop it runs in: a yield inside pcall or a metamethod returns from the nested loop as if the call had finished, and the next resume dereferences a nil frame (F28)")
 				gt := p.Fn("lua", "(*LState).GetTop")
 				cnt, isCall := cl.Call.Args[1].(*ssa.Call)
 				c.check(isCall && cnt.Call.StaticCallee() == gt && vkey(cnt.Call.Args[0]) == vkey(cl.Call.Args[0]), R, key+":yield-transfers-whole-stack", p.ipos(cl),
